@@ -130,6 +130,14 @@ type Source struct {
 	// arrive out of order.
 	durableAckSeq uint64
 
+	// persistErr is the error of a position write that failed and has not been
+	// superseded by a later successful one (persistErrSeq is the seq it was
+	// registered for). Teardown reports it: a source whose last acknowledged
+	// positions never reached the store has not been stopped cleanly, and
+	// StopAndWait must not tell its caller that the positions are durable.
+	persistErr    error
+	persistErrSeq uint64
+
 	// deferredAckQueue is the FIFO hand-off from onPersistFlushed (which runs
 	// in connector.Persister's shared callbackWg goroutine) to the dedicated
 	// per-source delivery goroutine (deliverDeferredAcks). onPersistFlushed
@@ -476,6 +484,14 @@ func (s *Source) Teardown(ctx context.Context) error {
 		return cerrors.Errorf("could not tear down source connector plugin: %w", err)
 	}
 
+	s.ackMu.Lock()
+	persistErr := s.persistErr
+	s.persistErr = nil
+	s.ackMu.Unlock()
+	if persistErr != nil {
+		return cerrors.Errorf("source connector %s was torn down but its last acknowledged position could not be persisted (the records after the stored position will be read again): %w", s.Instance.ID, persistErr)
+	}
+
 	s.Instance.logger.Info(ctx).Msg("source connector plugin successfully torn down")
 	return nil
 }
@@ -612,6 +628,11 @@ func (s *Source) onPersistFlushed(seq uint64, err error) {
 		// reading errs (the connector is being torn down) a plain send would
 		// block this callback forever, and with it Persister.WaitPendingWrites
 		// - which lifecycle.StopAndWait calls without a bound.
+		s.ackMu.Lock()
+		if seq >= s.persistErrSeq {
+			s.persistErr, s.persistErrSeq = err, seq
+		}
+		s.ackMu.Unlock()
 		s.escalateDeferredAckFailure(err)
 		return
 	}
@@ -620,6 +641,10 @@ func (s *Source) onPersistFlushed(seq uint64, err error) {
 	s.ackMu.Lock()
 	if seq > s.durableAckSeq {
 		s.durableAckSeq = seq
+	}
+	if seq >= s.persistErrSeq {
+		// the position is cumulative: this write covers the one that failed
+		s.persistErr = nil
 	}
 	i := 0
 	for ; i < len(s.pendingAcks) && s.pendingAcks[i].seq <= s.durableAckSeq; i++ {
